@@ -410,6 +410,8 @@ Proof.
     + auto.
   - (* OActive *)
     case_all; cbn [fst snd]; (split; [auto|repeat constructor]).
+  - (* OForeign *)
+    destruct (_ =? _); cbn [fst snd]; (split; [auto|repeat constructor]).
   - split; [auto|constructor].
 Qed.
 
